@@ -48,6 +48,14 @@ func c11RabinScenarioV(c *kc.Ctx, mock bool, n, t int, faults map[int]string, vi
 	w := newDkgWorld(mock, rng.Fork("world"))
 	desc := fmt.Sprintf("rabin mock=%v n=%d t=%d faults=%v", mock, n, t, faults)
 	viol := func(key, what string) {
+		// outcomes of the one scenario class in which a participant reveals a wrong share VALUE during the
+		// reconstruction of a dealer's polynomial carry their own keys (recorded finding: receivers cannot check it)
+		for _, f := range faults {
+			if f == "badReconstructValue" && (key == "agreement" || key == "share-off-polynomial" || key == "recover") {
+				key += ":unverified-reconstruct-share"
+				break
+			}
+		}
 		c.Violation("rabin:"+key, what, map[string]any{"scenario": desc, "group": w.gname})
 	}
 	var pubs []kyber.Point
@@ -401,6 +409,20 @@ func c11RabinScenarioV(c *kc.Ctx, mock bool, n, t int, faults map[int]string, vi
 			}
 			var rc *rdkg.ReconstructCommits
 			run(func() { rc, _ = x.gen.ProcessComplaintCommits(cc) })
+			if rc != nil && (x.fault == "badReconstructValue" || x.fault == "badReconstructIndex") && rc.Share != nil {
+				// a participant that reveals, under its own signature, another value than the share it was dealt,
+				// or its share under somebody else's evaluation point
+				bad := &rdkg.ReconstructCommits{SessionID: rc.SessionID, Index: rc.Index, DealerIndex: rc.DealerIndex,
+					Share: &share.PriShare{I: rc.Share.I, V: w.suite.Scalar().Add(rc.Share.V, w.suite.Scalar().One())}}
+				if x.fault == "badReconstructIndex" {
+					bad.Share = &share.PriShare{I: (rc.Share.I + 1 + uint32(x.victim)%uint32(n-1)) % uint32(n), V: rc.Share.V}
+				}
+				if sig, err := schnorr.Sign(w.suite, x.sec, bad.Hash(w.suite)); err == nil {
+					bad.Signature = sig
+					rc = bad
+					c.CountKind("rabin:" + x.fault)
+				}
+			}
 			if rc != nil {
 				rcs = append(rcs, rc)
 			}
@@ -409,14 +431,16 @@ func c11RabinScenarioV(c *kc.Ctx, mock bool, n, t int, faults map[int]string, vi
 	if len(rcs) > 0 {
 		c.CountKind("rabin:reconstruct-phase")
 	}
-	// the broadcast channel may deliver in any order and more than once (also back to the author)
-	for a := len(rcs) - 1; a > 0; a-- {
-		b := rng.Intn(a + 1)
-		rcs[a], rcs[b] = rcs[b], rcs[a]
-	}
+	// the broadcast channel may deliver in any order - another one to every node - and more than once (also back
+	// to the author)
 	for _, x := range nodes {
 		if x.fault == "absent" {
 			continue
+		}
+		rcs := append([]*rdkg.ReconstructCommits{}, rcs...)
+		for a := len(rcs) - 1; a > 0; a-- {
+			b := rng.Intn(a + 1)
+			rcs[a], rcs[b] = rcs[b], rcs[a]
 		}
 		dup := rng.Intn(3) // 0: once, 1: every message twice in a row, 2: the whole batch twice
 		deliver := rcs
@@ -634,6 +658,26 @@ func c11Rabin(c *kc.Ctx, rng *kc.Rng) {
 		}
 	}
 	rabFlush(c)
+	// a dealer with wrong secret commitments for one node, and a participant that reveals a wrong share when the
+	// dealer's polynomial is reconstructed
+	for _, mock := range []bool{true, false} {
+		for _, nt := range [][2]int{{4, 2}, {5, 3}, {5, 2}, {6, 3}, {6, 4}} {
+			n, t := nt[0], nt[1]
+			for k := 0; k < c.N(2, 10); k++ {
+				d := rng.Intn(n)
+				r := (d + 1 + rng.Intn(n-1)) % n
+				v := rng.Intn(n)
+				for v == d || v == r {
+					v = rng.Intn(n)
+				}
+				for _, kind := range []string{"badReconstructIndex", "badReconstructValue"} {
+					faults := map[int]string{d: "badSecretCommits", r: kind}
+					c11RabinScenarioV(c, mock, n, t, faults, map[int]int{d: v, r: k}, rng.Fork(fmt.Sprint("rr", mock, n, t, k, kind)))
+					scen++
+				}
+			}
+		}
+	}
 	c.Extra("scenarios_R_rabin_dkg", scen)
 }
 
